@@ -12,6 +12,7 @@ Definition show_ev (e : ev) : string :=
   | ERun ph id _ => show_phase ph ++ show_nat id ++ ";"
   | EWarn => "w;"
   | EValueError => "!V;"
+  | EAdded _ _ | ERemoved _ _ => ""
   end.
 
 Definition run_show (c : list body * list op) : string :=
